@@ -32,7 +32,7 @@ import zstandard as zstd
 
 from ..core import Prop, Failure
 from . import c12
-from .c12 import make_case, drive, canonical, case_line, hx
+from .c12 import make_case, drive, canonical, case_line, hx, inflating
 
 RAISE_OK = {"ProtocolError", "IncompleteRead", "DecodeError", "InvalidChunkLength"}
 
@@ -336,9 +336,13 @@ class C13(Prop):
         noticed the corruption; zlib / zstd may notice a damaged header or checksum one network segment
         earlier or later than the stored-block reference decoders of the model (decoder internals are
         trusted, DESIGN §5) — so the position is not compared once a decode error was raised.  Found by the
-        thorough tier on the unchanged tree (corrupt 'zstd, gzip' body, seg=3: tell 31 vs 34)."""
-        if "!DecodeError" in line:
-            return re.sub(r"tell=\d+", "tell=*", line)
+        thorough tier on the unchanged tree (corrupt 'zstd, gzip' body, seg=3: tell 31 vs 34).
+        `length_remaining` of a Content-Length body is the same number seen from the other end
+        (Content-Length - tell): masked likewise (round 2, thorough tier, seed 0: corrupt 'zstd, gzip' body
+        with Content-Length 47, stream(3): lr 8 vs 2)."""
+        if "!DecodeError" in line or "E:DecodeError" in line:
+            line = re.sub(r"tell=\d+", "tell=*", line)
+            return re.sub(r"lr=-?\d+", "lr=*", line)
         return line
 
     def execute(self, case, res):
@@ -434,6 +438,9 @@ class C13(Prop):
                             f"sockets={info.get('nsocks')} first_closed={info['first_closed']}", case)
         self._verdict = verdict
         if not case.get("model", True):
+            return [], []
+        if inflating(run, case):
+            res.bump("model-skipped:inflating")      # oracle only, see c12.inflating
             return [], []
         return [case_line(case)], [canonical(run, case)]
 
